@@ -64,9 +64,22 @@ def normalize (d : CoreDid) : Outcome DErr CoreDid :=
     | some d' => .ok d'
     | none => .panic "iota_did.rs:normalize:expect"
 
-/-- `IotaDID::try_from_core` -/
-def tryFromCore (d : CoreDid) : Outcome DErr CoreDid :=
+/-- validity check + normalisation -/
+def tryFromCoreChecked (d : CoreDid) : Outcome DErr CoreDid :=
   if checkValidity d then normalize d else .err .invalid
+
+def isUpper (c : Nat) : Bool := 65 ≤ c && c ≤ 90
+def asciiLower (s : Str) : Str := s.map fun c => if isUpper c then c + 32 else c
+
+/-- `IotaDID::try_from_core`: a DID containing upper-case characters is first re-parsed from its
+lower-cased string (when the code does that) -/
+def tryFromCore (d : CoreDid) : Outcome DErr CoreDid :=
+  if tryFromCoreLowercases && d.str.any isUpper then
+    match parseDid (asciiLower d.str) with
+    | .ok d' => tryFromCoreChecked d'
+    | .err e => .err e
+    | .panic m => .panic m
+  else tryFromCoreChecked d
 
 /-- `IotaDID::parse` applied to the lower-cased input -/
 def parseLower (lower : Str) : Outcome DErr CoreDid :=
